@@ -14,3 +14,9 @@ package models
 //@   purefn
 //@   ensures result == e.Cursor
 //@   props C20
+
+// Wrapping an excerpt allocates a new object and touches nothing else.
+//@ func NewLazyBug
+//@   trusted
+//@   modifies nothing
+//@   ensures fresh(result)
